@@ -88,7 +88,8 @@ func VerifC13Encode32() { c13Encode(32) }
 // c13Decode: an arbitrary sequence of n list words (optionally one word replaced by a string that is not in the
 // list) is accepted exactly when n is a legal length, every word is in the list and the checksum bits are the
 // first bits of SHA-256 of the entropy bits; what is returned is those entropy bits.
-func c13Decode(n int, foreign bool) {
+func c13Decode(n int, foreignWord string) {
+	foreign := foreignWord != ""
 	idx := make([]int, n)
 	ws := make([]string, n)
 	for i := range idx {
@@ -96,7 +97,7 @@ func c13Decode(n int, foreign bool) {
 		ws[i] = wordList[idx[i]]
 	}
 	if foreign {
-		ws[rt.NondetLen(0, n-1)] = "zzzzzz"
+		ws[rt.NondetLen(0, n-1)] = foreignWord
 	}
 	m := strings.Join(ws, " ")
 	legal := n%3 == 0 && n >= 12 && n <= 24
@@ -132,14 +133,17 @@ func c13Decode(n int, foreign bool) {
 	rt.Reach("end")
 }
 
-func VerifC13Decode12()        { c13Decode(12, false) }
-func VerifC13Decode15()        { c13Decode(15, false) }
-func VerifC13Decode24()        { c13Decode(24, false) }
-func VerifC13DecodeLen9()      { c13Decode(9, false) }
-func VerifC13DecodeLen11()     { c13Decode(11, false) }
-func VerifC13DecodeLen13()     { c13Decode(13, false) }
-func VerifC13DecodeLen27()     { c13Decode(27, false) }
-func VerifC13DecodeForeign12() { c13Decode(12, true) }
+func VerifC13Decode12()        { c13Decode(12, "") }
+func VerifC13Decode15()        { c13Decode(15, "") }
+func VerifC13Decode24()        { c13Decode(24, "") }
+func VerifC13DecodeLen9()      { c13Decode(9, "") }
+func VerifC13DecodeLen11()     { c13Decode(11, "") }
+func VerifC13DecodeLen13()     { c13Decode(13, "") }
+func VerifC13DecodeLen27()     { c13Decode(27, "") }
+// a list word in another letter case is not a list word
+func VerifC13DecodeForeignCase12() { c13Decode(12, "Zoo") }
+func VerifC13DecodeForeignUpper12() { c13Decode(12, "ABANDON") }
+func VerifC13DecodeForeign12() { c13Decode(12, "zzzzzz") }
 
 // VerifC13Seed: the seed is PBKDF2-HMAC-SHA512(mnemonic, "mnemonic"+passphrase, 2048 rounds, 64 bytes).
 func VerifC13Seed() {
